@@ -74,7 +74,7 @@ func sigInMode(sig, mode string) bool {
 			return true
 		}
 	}
-	if strings.HasPrefix(sig, "diskloss:") {
+	if strings.HasPrefix(sig, "diskloss:") || strings.HasPrefix(sig, "figure8:database-commit-offset-beyond-log-head") {
 		return true
 	}
 	set := c01Sigs
@@ -170,6 +170,9 @@ func (c *cluster) resolve(st string) (string, bool) {
 			kv[1] = kv[1][:i]
 		}
 		switch kv[1] {
+		case "none":
+			delete(c.roles, kv[0])
+			return "", false
 		case "L":
 			if c.el == nil || c.el.leader == 0 {
 				c.unrealisable("bind: no elected leader")
